@@ -170,6 +170,38 @@ def run(ctx):
                                     assignment=list(a)))
             else:
                 fails.append((r, row, z, ref, dev, a))
+        # ---- the same rows handed over in other (equivalent) units: P in yr|h, angles in deg, s in another velocity
+        # unit. The kernel then sees inputs that differ by an ulp, so the comparison is against the values just judged,
+        # within the kernel tolerance inflated by the sensitivity to the phase (|M| / (1-e)^2).
+        if not fails and e_class != "extreme" and ctx.variant == "plain":
+            alt = {"P": str(rng.choice(["yr", "h"])), "omega": "deg", "M0": "deg",
+                   "s": str(rng.choice([x for x in gen.VEL_UNITS if x != du]))}
+            try:
+                samples2 = gen.build_samples(rows, units=alt)
+                im2 = bool(rng.random() < 0.5)
+                ll2 = np.asarray(joker.marginal_ln_likelihood(data, samples2, in_memory=im2), dtype=float)
+                lin0 = lins[assignments[0]]
+                for r in range(nrows):
+                    if not np.isfinite(ll[r]):
+                        continue
+                    zc = oracle.z_column(lin0, rows["P"][r], rows["e"][r], rows["omega"][r], rows["M0"][r], "c")
+                    t0 = oracle.marginal(lin0, zc, rows["P"][r], rows["e"][r], s_seen[r], want_post=False)["tol"]
+                    Mmax = 2 * np.pi * np.max(np.abs(lin0.t - lin0.t_ref)) / rows["P"][r] + 10
+                    tolu = 1e-8 * (1 + abs(ll[r])) + 4 * t0 * (1 + Mmax / (1 - rows["e"][r]) ** 2)
+                    if tolu > 1e-4:
+                        ctx.count("alt_units_too_sensitive")
+                        continue
+                    ctx.evaluations += 1
+                    ctx.count("alt_units_compared")
+                    ctx.distinct.add(repr(("alt-units", im2, du, alt["s"], alt["P"])))
+                    if not abs(ll2[r] - ll[r]) <= tolu:
+                        ctx.violation("sample-units-not-converted", "the same row given with P in %s, angles in deg, s in %s (%s) yields "
+                                      "%.12g instead of %.12g (allowed %.3g)" % (alt["P"], alt["s"], "in memory" if im2 else "cache",
+                                                                                ll2[r], ll[r], tolu),
+                                      dict(desc, row=r, alt_units=alt, in_memory_alt=im2))
+                        break
+            except Exception as e:
+                ctx.exception(e, "marginal_ln_likelihood with samples in other units", dict(desc, alt_units=alt))
         for r, row, z, ref, dev, a in fails[:6]:
             keys = classify(lins[a], z, row, row["s"], float(ll[r]), ps, dspec, ref["ll"])
             for key in keys:
